@@ -32,6 +32,7 @@ def run_slice(ctx, module):
     compat.install()
     if hasattr(module, "setup"):
         module.setup(ctx)
+    ctx.loop_t0 = time.time()  # the soft time budget covers the workload, not interpreter start-up / imports
     if hasattr(module, "run"):
         module.run(ctx)
     else:
